@@ -39,7 +39,7 @@ def vals_grid(rng):
     return rng.choice([N(0), N(1), N(2), N(3), N(-1), N(1, 2), N(3, 2), N(-5, 2), N(1, 4), N(7), N(10)])
 
 
-FINE = [N(1, 8), N(1, 16), N(33, 16), N(-3, 8), N(5, 8)]
+FINE = [N(1, 8), N(1, 16), N(33, 16), N(-3, 8), N(5, 8), N(9999, 10000), N(10001, 10000), N(19999, 10000)]
 
 
 def has_fluent(tree):
@@ -79,7 +79,10 @@ class Gen:
 
     def terms_of(self, ty, extra=()):
         """terms (params / consts) whose type conforms to ty"""
-        out = [n for n, t in list(self.params) + list(extra) if subtype(t, ty)]
+        scope = {}
+        for n, t in list(self.params) + list(extra):     # an inner binding hides a parameter of the same name
+            scope[n] = t
+        out = [n for n, t in scope.items() if subtype(t, ty)]
         if self.with_consts:
             out += [c for c, t in CONSTS if subtype(t, ty)]
         return out
@@ -250,6 +253,8 @@ class Gen:
             elif self.with_forall:
                 v = "?z"
                 ty = rng.choice(["t1", "t2", "object"])
+                if self.params and rng.random() < 0.15:
+                    v = rng.choice(self.params)[0]      # the bound variable re-uses (shadows) a parameter's name
                 ex = [[v, ty]]
                 items.append(L(S("forall"), L(S(v), S("-"), S(ty)), L(S("when"), self.cond(ex), self.body(ex))))
             else:
